@@ -287,3 +287,48 @@ def arm_return_values(fn, sw_bb=None):
         label = '|'.join(labs)
         out[label] = prov.phi(vals) if vals else None
     return info['cond'], out
+
+
+def specialized_paths(fn, args):
+    """acyclic paths of `fn` when called with the argument trees `args` (list, parameter 1 first): a switch whose scrutinee becomes
+    a known enum variant / bool constant after substitution keeps only its matching edge.  Returns [(remaining conds, value of _0)]
+    with parameters substituted, or None (loops / too many paths)."""
+    paths = enumerate_paths(fn)
+    if paths is None:
+        return None
+    params = {i + 1: a for i, a in enumerate(args)}
+    P = prov.prov_of(fn)
+    out = []
+    for p in paths:
+        if p.end != 'return':
+            continue
+        feasible = True
+        rest = []
+        for c, lab in p.conds:
+            c2 = prov.subst(c, params)
+            known = None
+            x = prov.strip(c2, names=set(IDENTITY_BOOL))
+            if x[0] == 'discr':
+                y = prov.strip(x[1], names={'clone', 'copied', 'cloned'})
+                if y[0] == 'agg' and y[1] == 'adt' and y[3]:
+                    known = y[3]
+            elif x[0] == 'const' and x[1].get('val') in ('true', 'false'):
+                known = x[1]['val']
+            if known is not None:
+                if known not in lab.split('|'):
+                    feasible = False
+                    break
+            else:
+                rest.append((c2, lab))
+        if not feasible:
+            continue
+        val = None
+        for bb in reversed(p.blocks):
+            ds = [d for d in P.defs if d.local == 0 and d.whole and d.bb == bb]
+            if ds:
+                val = P.def_value(ds[-1])
+                break
+        if val is None:
+            return None
+        out.append((rest, prov.subst(val, params)))
+    return out
